@@ -1,0 +1,17 @@
+//go:build verif
+
+package feldman
+
+// Decoder schema (property C12), instantiated mechanically by `govc gen-decoders`: a decoder returns nil only if
+// the validating constructor, applied to the decoded fields, returned a nil error. Constructors marked
+// "assumed / purefn" are only assumed to be deterministic functions of their arguments.
+
+//@ func (*VerificationVector).UnmarshalCBOR
+//@   property C12
+//@   let dto = as(res(serde.UnmarshalCBOR(data), 0), *verificationVectorDTO)
+//@   ensures err == nil ==> res(NewVerificationVector(dto.V, nil), 1) == nil
+
+//@ func NewVerificationVector
+//@   assumed
+//@   purefn
+
